@@ -13,6 +13,7 @@ RULE = ("seeded scenarios (all objective families, N=1..5, boxes of every kind, 
 ASSUMPTIONS = ["evaluated at quiescent points of the global phase; after Solve only when refineSolution=False (refinement deliberately rewrites the optimum in place)",
                "interval lengths compared within 4 ulp of libm pow", "stored point compared bitwise with a fresh Evolvent of the same bounds and density"]
 SIZES = {"quick": 320, "thorough": 6000}
+CASE_TIMEOUT = 120
 
 _insert_stats = {"calls": 0, "bad": []}
 _wrapped = False
@@ -60,6 +61,22 @@ def cases(tier, seed):
             scn["pk"] = "solve"
             scn["pattern"] = [["solve"]]
         out.append(scn)
+    # runs driven (by iteration batches, which ignore eps) until the partition reaches adjacent doubles: the record must stay
+    # valid at every step up to and including the moment the method gives up
+    for i in range(16 if tier == "quick" else 120):
+        rng = scenario.rng_for(seed, "C06c", i)
+        N = 1 if i % 4 else 2
+        lo, hi, kind = scenario.gen_box(rng, N, "unit" if i % 3 == 0 else None)
+        fam = ["linear", "outside", "cones", "linear"][i % 4]
+        obj = scenario.gen_objective(rng, N, [fam])
+        if fam == "cones":
+            obj = {"fam": "cones", "a": [obj["a"][0]], "c": [obj["c"][0]], "K": [obj["K"][0]]}
+        mode = ["float", "npfloat", "float"][i % 3]
+        if mode == "npfloat":
+            obj = {"fam": "scaled", "base": obj, "mode": "npfloat"}
+        out.append({"N": N, "lower": lo, "upper": hi, "box": kind, "obj": obj, "r": float(rng.choice([1.3, 2.0, 3.0, 5.0])), "eps": 1e-3,
+                    "iters": 400, "m": 10, "refine": False, "holder": "same", "pk": "collapse",
+                    "pattern": [["iter", 1]] * 40 + [["iter", 10]] * 26})
     return out
 
 
@@ -95,8 +112,13 @@ def run_case(scn):
     m = mon()
     viol = list(m.viol)
     if t.fp_exhausted:
-        return {"violations": viol, "obs": {"fp_domain_exhausted": 1, "items_checked": m.items_checked, "moments": sum(m.moments.values())},
-                "skip": "fp-domain-exhausted"}
+        # the method's own guard stopped the run at adjacent doubles: the record as it stands must still be valid
+        m.check("after:fp-guard")
+        viol = list(m.viol)
+        return {"violations": viol, "obs": {"fp_domain_exhausted": 1, "items_checked": m.items_checked, "moments": sum(m.moments.values()),
+                                            "collapse_runs": int(scn.get("pk") == "collapse"), "trials": prob.ng},
+                "skip": "fp-domain-exhausted", "nontrivial": True,
+                "key": "collapse|%s|%d|%d" % (scn["obj"]["fam"], scn["N"], prob.ng)}
     for b in _insert_stats["bad"]:
         viol.append(dict(b, mech="searchinfo:insert-postcondition"))
     if t.swallowed or t.aborted:
@@ -117,7 +139,7 @@ def finalize(obs, tier, stats):
     need = 100000 if tier == "quick" else 2000000
     if obs.get("items_checked", 0) < need:
         return "only %d stored items audited (< %d)" % (obs.get("items_checked", 0), need), {}
-    miss = [k for k in ("moments_callback:iter", "moments_after:iter", "moments_after:solve", "insert_calls_checked", "images_checked") if not obs.get(k)]
+    miss = [k for k in ("moments_callback:iter", "moments_after:iter", "moments_after:solve", "insert_calls_checked", "images_checked", "collapse_runs") if not obs.get(k)]
     if miss:
         return "never observed: %s" % miss, {}
     return None, {}
